@@ -38,6 +38,9 @@ type FaultDB struct {
 	captured   []byte
 	// per-commit write counts (for the evidence histogram)
 	sizes []int
+	// indices of commits that were direct writes of a persisted bloom window: the only direct
+	// window writes are those of a lazy filter initialisation (a fill crossing a window boundary)
+	directWin []int
 }
 
 func NewFaultDB(inner db.KeyValueStore) *FaultDB { return &FaultDB{inner: inner} }
@@ -97,6 +100,11 @@ func (f *FaultDB) Put(key, value []byte) error {
 	}
 	f.mu.Unlock()
 	idx, fail := f.begin()
+	if len(key) > 0 && db.Bucket(key[0]) == db.AggregatedBloomFilters {
+		f.mu.Lock()
+		f.directWin = append(f.directWin, idx)
+		f.mu.Unlock()
+	}
 	if fail {
 		return errInjected
 	}
@@ -105,6 +113,19 @@ func (f *FaultDB) Put(key, value []byte) error {
 	}
 	f.done(idx, 1)
 	return nil
+}
+
+// initWritesBetween counts the lazy-initialisation window writes with lo < index < hi.
+func (f *FaultDB) initWritesBetween(lo, hi int) int {
+	f.mu.Lock()
+	defer f.mu.Unlock()
+	n := 0
+	for _, i := range f.directWin {
+		if i > lo && i < hi {
+			n++
+		}
+	}
+	return n
 }
 
 func (f *FaultDB) Delete(key []byte) error {
